@@ -12,6 +12,7 @@ from pytestarch.eval_structure_generation.file_import.converter import ImportCon
 from pytestarch.eval_structure_generation.file_import.file_filter import FileFilter
 from pytestarch.eval_structure_generation.file_import.import_filter import (
     ExternalImportFilter,
+    is_internal_module,
 )
 from pytestarch.eval_structure_generation.file_import.import_types import NamedModule
 from pytestarch.eval_structure_generation.file_import.importee_module_calculator import (
@@ -178,4 +179,4 @@ def _get_all_ast_modules(
 def _get_all_internal_modules(
     modules: list[str], internal_module_prefix: str
 ) -> set[str]:
-    return {m for m in modules if m.startswith(internal_module_prefix)}
+    return {m for m in modules if is_internal_module(m, internal_module_prefix)}
